@@ -145,7 +145,7 @@ macro_rules! impl_clamp_hwb {
                 let mut whiteness = crate::clamp_min(self.whiteness.clone(), Self::min_whiteness());
                 let mut blackness = crate::clamp_min(self.blackness.clone(), Self::min_blackness());
 
-                let sum = self.blackness + self.whiteness;
+                let sum = blackness.clone() + whiteness.clone();
                 let divisor = sum.gt(&T::max_intensity()).select(sum, T::one());
                 whiteness /= divisor.clone();
                 blackness /= divisor;
